@@ -436,8 +436,7 @@ def check_d3(res, canon, f):
             t = stmt.target
             sink = canon.c(t.value if isinstance(t, ast.Subscript) else t, fr)
         what = '%s() in `%s`' % (hit, short(ast.unparse(stmt), 70) if stmt is not None else '?')
-        if isinstance(stmt, ast.Assign) and len(stmt.targets) == 1 and isinstance(stmt.targets[0], ast.Name) \
-                and not (f.qual == 'Simulation._compose_hdf5_output' and sink == 'ts'):
+        if isinstance(stmt, ast.Assign) and len(stmt.targets) == 1 and isinstance(stmt.targets[0], ast.Name):
             # held in a local: every use of the local decides
             bad_use = _local_clock_uses(f, canon, fr, stmt.targets[0].id, set())
             if bad_use is None:
@@ -446,8 +445,6 @@ def check_d3(res, canon, f):
             sink = '%s (then `%s`)' % (stmt.targets[0].id, short(ast.unparse(bad_use), 60))
         if sink in CLOCK_SINKS:
             res.ok('C10.D3', f, n, what, 'flows into %s: %s' % (sink, CLOCK_SINKS[sink]))
-        elif f.qual == 'Simulation._compose_hdf5_output' and sink == 'ts':
-            res.ok('C10.D3', f, n, what, 'HDF5 key naming only')
         else:
             res.bad('C10.D3', f, n, what,
                     '%s() flows into %s, which is not one of the excluded timing sinks: an output '
@@ -486,6 +483,17 @@ def _local_clock_uses(f, canon, fr, name, seen):
         if isinstance(s, ast.Expr) and isinstance(s.value, ast.Call) and isinstance(s.value.func, ast.Attribute) \
                 and isinstance(s.value.func.value, ast.Name) and s.value.func.value.id.lower() in ('logger', 'logging', 'log'):
             continue
+        # store.put(key=<...name...>, value=<no name>): the value names the record in the output file
+        # (file / key naming is excluded by the property), it is not part of any table
+        if isinstance(s, ast.Expr) and isinstance(s.value, ast.Call) and isinstance(s.value.func, ast.Attribute) \
+                and s.value.func.attr in ('put', 'append', 'to_hdf'):
+            c_ = s.value
+            keyargs = [k.value for k in c_.keywords if k.arg == 'key'] or (list(c_.args[:1]) if c_.args else [])
+            others = [k.value for k in c_.keywords if k.arg != 'key'] + list(c_.args[1:] if c_.args and not [
+                k for k in c_.keywords if k.arg == 'key'] else c_.args)
+            uses = lambda e_: any(isinstance(x, ast.Name) and x.id == name for x in ast.walk(e_))
+            if any(uses(e_) for e_ in keyargs) and not any(uses(e_) for e_ in others):
+                continue
         return s
     return None
 
